@@ -312,7 +312,7 @@ func checkC19(p *load.Program, r *kit.Report) {
 						if dphi, ok := b.Y.(*ssa.Phi); ok {
 							okStep = true
 							for _, de := range dphi.Edges {
-								if de == ssa.Value(paramNamed(f, "delta")) {
+								if de == ssa.Value(prmAt(f, 2)) {
 									continue
 								}
 								m, ok := de.(*ssa.BinOp)
@@ -349,7 +349,7 @@ func checkC19(p *load.Program, r *kit.Report) {
 		r.Check(bad == "", "START-SHAPE", "Branch.GetLocatorHashes/walk", pos, "starts at Height()-1, steps down by delta, delta doubles; genesis alone at 0", bad)
 		// max test after every best-chain append
 		bad = ""
-		maxP := paramNamed(f, "max")
+		maxP := prmAt(f, 3)
 		var bestAppend ssa.Instruction
 		for _, w := range kit.DirectWrites(f) {
 			if w.Field == hhHash {
@@ -500,7 +500,7 @@ func checkC19(p *load.Program, r *kit.Report) {
 							changes = true
 						}
 					}
-					if !changes || g.Name() == "NewRepository" || strings.HasPrefix(p.FileOf(g.Pos()), "headers/test_helpers.go") {
+					if !changes || fname(g) == "NewRepository" || strings.HasPrefix(p.FileOf(g.Pos()), "headers/test_helpers.go") {
 						continue
 					}
 					if !covered(g, 0) {
